@@ -154,7 +154,7 @@ def h_formula(E, form, samples, failable, tolkind):
     for i in range(samples):
         exp = {'add': 2 * xs[i] + ys[i], 'poly': xs[i] * xs[i] + ys[i], 'mul': 2 * xs[i] + ys[i], 'neg': -xs[i]}[form]
         diff = exp * ds[i] if form == 'mul' else ds[i]
-        bound = tol if tolkind == 'abs' else sabs(exp) * percentage_as_number(tolkind)
+        bound = tol if tolkind == 'abs' else sabs(exp) * Fraction(pct_fraction(tolkind))      # the oracle's own reading of 'p%'
         fails.append(snot(near_le(sabs(diff), bound)))
     _count_ok(E, fails, samples, failable, r['grade_decimal'], a)
     return str(r['ok'])
@@ -169,7 +169,7 @@ def h_numerical(E, tolkind):
     tol = E.real('tol', 0, 2) if tolkind == 'abs' else tolkind
     g = NumericalGrader(answers={'expect': '3*c', 'grade_decimal': a}, user_constants={'c': c, 'd': d}, tolerance=tol)
     r = g(None, 'c+c+c+d')
-    bound = tol if tolkind == 'abs' else sabs(3 * c) * percentage_as_number(tolkind)
+    bound = tol if tolkind == 'abs' else sabs(3 * c) * Fraction(pct_fraction(tolkind))
     _count_ok(E, [snot(near_le(sabs(d), bound))], 1, 0, r['grade_decimal'], a)
     return str(r['ok'])
 
@@ -256,7 +256,9 @@ def harnesses(tier):
             add(h_formula, 'formula', dict(form=form, samples=samples, failable=failable, tol='abs'), 'symbolic samples, tol in [0,2]')
         add(h_formula, 'formula', dict(form=form, samples=2, failable=0, tol='5%'), 'symbolic samples')
         add(h_formula, 'formula', dict(form=form, samples=2, failable=1, tol='0%'), 'symbolic samples')
-    for tk in ('abs', '5%', '0%'):
+    for pct in ('0.125%', '0.004%', '12.3456%', ' 2.5 %'):
+        add(h_formula, 'formula', dict(form='add', samples=1, failable=0, tol=pct), 'symbolic samples; percentage with several decimals')
+    for tk in ('abs', '5%', '0%', '0.125%', '0.004%'):
         add(h_numerical, 'numerical', dict(tol=tk), 'symbolic constants')
     for shape, tk in [((2,), 'abs'), ((2,), '10%'), ((2, 2), 'abs')] + ([((2, 2), '10%'), ((3,), '10%')] if T else []):
         if True:
